@@ -149,7 +149,8 @@ def write_results_md(results):
     lines = ["# Seeded breaking changes: which check catches which change", "",
              "Generated by `tools/seeded.py matrix` (quick tier of every check against every change, in scratch worktrees).",
              "`V` = VIOLATION (exit 1), `.` = clean (exit 0), `E` = harness error (exit 2). The column of the property the",
-             "change was written against is marked with brackets.", "",
+             "change was written against is marked with brackets (round brackets when, by the property's own text, the",
+             "change is not a violation of that property and another check is the one expected to fire; see meta.json).", "",
              "| change | " + " | ".join(PROPS) + " |", "|---|" + "---|" * len(PROPS)]
     for name in sorted(results):
         meta = json.load(open(os.path.join(root, name, "meta.json")))
@@ -157,20 +158,22 @@ def write_results_md(results):
         for p in PROPS:
             r = results[name].get(p)
             c = "?" if r is None else {0: ".", 1: "V", 2: "E"}.get(r["exit"], str(r["exit"]))
-            row.append(f"[{c}]" if p == meta["property"] else c)
+            row.append(f"[{c}]" if p == meta.get("detected_by", meta["property"]) else (f"({c})" if p == meta["property"] else c))
         lines.append(f"| {name} | " + " | ".join(row) + " |")
     lines += ["", "## First oracle reported by the target check", ""]
     for name in sorted(results):
         meta = json.load(open(os.path.join(root, name, "meta.json")))
-        r = results[name].get(meta["property"]) or {}
-        lines.append(f"* **{name}** ({meta['property']}): needs: {meta.get('needs_to_manifest')}  ")
+        tgt = meta.get("detected_by", meta["property"])
+        r = results[name].get(tgt) or {}
+        extra = " - OUTSIDE the property as stated (see meta.json), not expected to fire" if meta.get("outside_property") else ""
+        lines.append(f"* **{name}** ({meta['property']}, judged by {tgt}){extra}: needs: {meta.get('needs_to_manifest')}  ")
         lines.append(f"  reported: `{((r.get('oracles') or ['-'])[0])[:300]}`")
     lines += ["", "## Alarms raised by checks other than the target", ""]
     for name in sorted(results):
         meta = json.load(open(os.path.join(root, name, "meta.json")))
         for p in PROPS:
             r = results[name].get(p)
-            if r and p != meta["property"] and r["exit"] != 0:
+            if r and p not in (meta["property"], meta.get("detected_by")) and r["exit"] != 0:
                 lines.append(f"* {name} -> {p} exit {r['exit']}: `{((r.get('oracles') or r.get('tail') or ['-'])[0])[:260]}`")
     with open(os.path.join(root, "RESULTS.md"), "w") as f:
         f.write("\n".join(lines) + "\n")
@@ -194,11 +197,12 @@ def main(argv):
                 continue
             meta = json.load(open(os.path.join(d, "meta.json")))
             c = confirm(d)
-            k = check(d, meta["property"])
-            rows.append((name, meta["property"], c.get("confirmed"), k["exit"], (k["oracles"] or [""])[0][:100]))
+            k = check(d, meta.get("detected_by", meta["property"]))
+            rows.append((name, meta["property"], c.get("confirmed"), k["exit"], (k["oracles"] or [""])[0][:100],
+                         bool(meta.get("outside_property"))))
             print(rows[-1])
             sys.stdout.flush()
-        bad = [r for r in rows if not (r[2] and r[3] == 1)]
+        bad = [r for r in rows if not (r[2] and (r[3] == 1 or r[5]))]
         print(f"{len(rows) - len(bad)}/{len(rows)} seeded changes confirmed and detected")
         return 0 if not bad else 1
     return 0
